@@ -45,6 +45,10 @@ impl<'a, W: Write<Error = E>, E: Error> Writer<'a, W, E> {
 //@     &&& self.only_writes()
 //@     &&& self.dirty <==> (self.out().len() > 0 && self.out().last() != 0x0A)
 //@     &&& self.dirty ==> self.last_bytes@[1] == self.out().last()
+//@     // C06/C13: nothing written yet means no sink operation at all; output that ends with a line break leaves the
+//@     // terminal at the start of an empty line (the last write is CR LF)
+//@     &&& self.out().len() == 0 ==> self.writer.evs().len() == self.base@
+//@     &&& (self.out().len() > 0 && self.out().last() == 0x0A) ==> is_fresh(term_run(self.writer.evs()))
 //@ }
     pub fn new(writer: &'a mut W) -> Self {
 //@ ensures r.wf(), r.evs() == old(writer).evs(), r.errs() == old(writer).errs(), r.out() == Seq::<u8>::empty(),
@@ -75,7 +79,7 @@ impl<'a, W: Write<Error = E>, E: Error> Writer<'a, W, E> {
 //@ ensures
 //@     final(self).fin_evs() == old(self).fin_evs(), final(self).fin_errs() == old(self).fin_errs(), final(self).base == old(self).base,
 //@     // C13: the text reaches the sink unchanged except that each LF becomes CR LF
-//@     r is Ok ==> final(self).wf() && final(self).out() == old(self).out() + lf_to_crlf(text.spec_bytes()),   // [C13]
+//@     r is Ok ==> final(self).wf() && final(self).out() == old(self).out() + lf_to_crlf(text.spec_bytes()),   // [C13,C06]
 //@     // C14: a failed sink operation is reported, success means no failure
 //@     r is Ok ==> final(self).errs() == old(self).errs(),   // [C14]
 //@     r is Err ==> final(self).errs() > old(self).errs(),   // [C14]
@@ -127,6 +131,11 @@ impl<'a, W: Write<Error = E>, E: Error> Writer<'a, W, E> {
 //@     assert(codes::CRLF.spec_bytes() =~= seq![0x0Du8, 0x0Au8]) by { reveal_strlit("\r\n"); lemma_crlf_bytes(); }
 //@     assert(self.out() =~= ev_bytes_from(evs1, self.base@) + tb.subrange(0, pos as int) + seq![0x0Du8, 0x0Au8]);
 //@     assert(self.evs().subrange(0, evs0.len() as int) =~= evs0);
+//@     // C06: the last write is CR LF
+//@     let e1 = evs1.push(Ev::W(tb.subrange(0, pos as int)));
+//@     lemma_term_push(e1, Ev::W(codes::CRLF.spec_bytes()));
+//@     lemma_term_w_controls(term_run(e1));
+//@     assert(ends_crlf(codes::CRLF.spec_bytes()));
 //@ }
             } else {
 //@ let ghost evs1 = self.evs();
@@ -161,7 +170,7 @@ impl<'a, W: Write<Error = E>, E: Error> Writer<'a, W, E> {
 //@ ensures
 //@     final(self).fin_evs() == old(self).fin_evs(), final(self).fin_errs() == old(self).fin_errs(), final(self).base == old(self).base,
 //@     // C13: as write_str, followed by one line break
-//@     r is Ok ==> final(self).wf() && final(self).out() == old(self).out() + lf_to_crlf(text.spec_bytes()) + seq![0x0Du8, 0x0Au8],   // [C13]
+//@     r is Ok ==> final(self).wf() && final(self).out() == old(self).out() + lf_to_crlf(text.spec_bytes()) + seq![0x0Du8, 0x0Au8],   // [C13,C06]
 //@     r is Ok ==> final(self).errs() == old(self).errs(),   // [C14]
 //@     r is Err ==> final(self).errs() > old(self).errs(),   // [C14]
         // text can contain line feeds, they have to be converted as in write_str
@@ -171,6 +180,9 @@ impl<'a, W: Write<Error = E>, E: Error> Writer<'a, W, E> {
 //@ proof {   // [C13]
 //@     lemma_crlf_bytes();
 //@     lemma_ev_bytes_from_push(evs1, self.base@, Ev::W(codes::CRLF.spec_bytes()));
+//@     lemma_term_push(evs1, Ev::W(codes::CRLF.spec_bytes()));
+//@     lemma_term_w_controls(term_run(evs1));
+//@     assert(ends_crlf(codes::CRLF.spec_bytes()));
 //@ }
         self.dirty = false;
         Ok(())
@@ -277,4 +289,6 @@ impl ErrorType for EmptyWriter {
 //@     &&& final(w).wf() && final(w).base == w.base
 //@     &&& final(w).fin_evs() == w.fin_evs() && final(w).fin_errs() == w.fin_errs()
 //@     &&& final(w).errs() >= w.errs()
+//@     // the sink log only grows
+//@     &&& final(w).evs().len() >= w.evs().len() && final(w).evs().subrange(0, w.evs().len() as int) == w.evs()
 //@ }
